@@ -28,8 +28,10 @@ def drain_facts(cx, pr, rep, cname, handle_pred, what, close_field='_wfp'):
         exc = [e for e in l.effects if e[0] == 'except']
         if exc:
             seen['empty'] += 1
+            # the path reaches the end of the hook (it does not go round the loop again): left by `break` in a handler inside the loop, or by the
+            # exception itself when the try statement encloses the loop
             ok = term_name(exc[0][1]).endswith('Empty') and l.outcome in ('fall', 'return')
-            rep.ob('%s shutdown: the drain loop ends exactly when the inbox is empty' % cname, ok and any(e[0] == 'loop-exit' and e[1] == 'break' for e in l.effects), W, '%s._post_process:drain-end' % cname, 'handler for %s, outcome %s' % (show(exc[0][1]), l.outcome))
+            rep.ob('%s shutdown: the drain loop ends exactly when the inbox is empty' % cname, ok, W, '%s._post_process:drain-end' % cname, 'handler for %s, outcome %s' % (show(exc[0][1]), l.outcome))
             yield l
             continue
         if len(gets) != 1:
@@ -144,7 +146,14 @@ def check(repo, rep):
     # ================================================================= events joiner
     jc = cx.cls(MOD, 'AudioEventsJoinerWorker')
     jdefs = cx.field_defs(MOD, 'AudioEventsJoinerWorker')
-    firstf = [f for f, ds in jdefs.items() if any(d['method'] == '__init__' and d['value'] == ('c', True) for d in ds)]
+    tested = set()
+    for n in jc.body:
+        if isinstance(n, ast.FunctionDef):
+            for l in cx.leaves_of(MOD, jc, n):
+                for c in l.conds:
+                    tested |= {x[2] for x in walk(c[0]) if x[0] == 'attr' and x[1] == ('self',)}
+    firstf = [f for f, ds in jdefs.items() if any(d['method'] == '__init__' and d['value'] in (('c', True), ('c', False)) for d in ds) and f in tested]
+    flag_init = {f: next(d['value'][1] for d in jdefs[f] if d['method'] == '__init__' and d['value'][0] == 'c') for f in firstf}
     # the separator field = what the event writer writes before the data on the not-first path
     silf = []
     for n in jc.body:
@@ -154,7 +163,24 @@ def check(repo, rep):
                 for w in wr:
                     if w[0] == 'attr' and w[1] == ('self',) and w[2] in jdefs and w[2] not in silf:
                         silf.append(w[2])
-    rep.ob('the joiner has a first-event flag (True at construction)', len(firstf) == 1, W(jc), 'AudioEventsJoinerWorker:first-flag', 'candidates %s' % firstf)
+    if len(firstf) == 1:
+        rep.ob('the joiner remembers whether an event was already written (a boolean field set at construction and flipped by the event writer)', True, W(jc), 'AudioEventsJoinerWorker:first-flag', 'candidates %s' % firstf)
+    else:
+        # no recognisable state: a writer path that tests nothing of self yet writes more than the event itself puts a separator before the
+        # first or after the last event -- that is decided; anything else is not
+        decided = False
+        for n in jc.body:
+            if isinstance(n, ast.FunctionDef) and n.name not in ('__init__', '_post_process', '_process_message') and any(isinstance(x, ast.Attribute) and x.attr == 'writeframes' for x in ast.walk(n)):
+                for l in cx.leaves_of(MOD, jc, n):
+                    if any(x[0] == 'attr' and x[1] == ('self',) for c in l.conds for x in walk(c[0])):
+                        continue
+                    wr = [e[1][2][0] for e in l.effects if e[0] == 'call' and e[1][0] == 'call' and e[1][1][0] == 'attr' and e[1][1][2] in ('writeframes', 'writeframesraw') and e[1][2]]
+                    if len(n.args.args) >= 2 and len(wr) > 1 and ('p', n.args.args[1].arg) in wr:
+                        decided = True
+                        rep.ob('joiner: a separator is written only between two events (never on a path that does not know whether an event came before)', False, W(n), 'AudioEventsJoinerWorker.%s[unconditional]' % n.name,
+                               'writes %s without consulting any state of the worker' % [show(w)[:40] for w in wr])
+        if not decided:
+            rep.unknown('AudioEventsJoinerWorker: how the joiner remembers whether an event was already written was not recognised (candidates %s)' % firstf)
     if len(silf) != 1:
         rep.unknown('AudioEventsJoinerWorker: separator field not identified (%s)' % silf)
     if len(firstf) == 1 and len(silf) == 1:
@@ -184,27 +210,30 @@ def check(repo, rep):
             rep.unknown('AudioEventsJoinerWorker: event writer not identified')
         else:
             dp = ('p', wev.args.args[1].arg)
-            nfirst = nlater = 0
-            for l in cx.leaves_of(MOD, jc, wev):
-                fc = [c for c in l.conds if c[0] == ('attr', ('self',), ff)]
-                wr = [e[1][2][0] for e in l.effects if e[0] == 'call' and e[1][0] == 'call' and e[1][1][0] == 'attr' and e[1][1][2] in ('writeframes', 'writeframesraw') and e[1][2]]
-                st = [e for e in l.effects if e[0] == 'store' and e[1] == ('attr', ('self',), ff)]
-                if not fc:
-                    # no first/later distinction on this path: then no separator may be written at all (nothing before the first or after the last event)
-                    rep.ob('joiner: a separator is written only between two events (never on a path that does not know whether an event came before)', wr == [dp], W(wev), 'AudioEventsJoinerWorker.%s[unconditional]' % wev.name,
-                           'writes %s without testing the first-event flag' % [show(w)[:40] for w in wr])
-                    nfirst += 1
-                    nlater += 1
-                    continue
-                if fc[0][1]:
-                    nfirst += 1
-                    rep.ob('joiner: the first event is written without leading silence and clears the flag', wr == [dp] and len(st) == 1 and st[0][2] == ('c', False), W(wev), 'AudioEventsJoinerWorker.%s[first]' % wev.name,
-                           'writes %s, flag stores %s' % ([show(w)[:40] for w in wr], [show(s_[2]) for s_ in st]), sample=dict(event='first', writes=[show(w)[:40] for w in wr]))
-                else:
-                    nlater += 1
-                    rep.ob('joiner: every later event is preceded by exactly one separator (silence, then the event)', wr == [('attr', ('self',), sf), dp] and not any(s_[2] == ('c', True) for s_ in st), W(wev), 'AudioEventsJoinerWorker.%s[later]' % wev.name,
-                           'writes %s' % [show(w)[:40] for w in wr], sample=dict(event='later', writes=[show(w)[:40] for w in wr]))
-            rep.floor('joiner event-writer first/later paths', min(nfirst, nlater), 1)
+            # decided on the two states of the flag: in the state set by the constructor ("no event yet") the event is written alone and
+            # the flag leaves that state; in the other state exactly one separator precedes the event and the flag stays
+            from ..semantic import evaluator, holds, value, Undecided
+            from ..facts import split_ites
+            wl_ = split_ites(cx.leaves_of(MOD, jc, wev))
+            b0 = flag_init[ff]
+            try:
+                for state, label in ((b0, 'first'), (not b0, 'later')):
+                    a_ = {('attr', ('self',), ff): state}
+                    hit = [l for l in wl_ if holds(l, evaluator(a_))]
+                    if len(hit) != 1:
+                        raise Undecided('%d paths of %s apply with %s = %s' % (len(hit), wev.name, ff, state))
+                    l = hit[0]
+                    wr = [e[1][2][0] for e in l.effects if e[0] == 'call' and e[1][0] == 'call' and e[1][1][0] == 'attr' and e[1][1][2] in ('writeframes', 'writeframesraw') and e[1][2]]
+                    st = [e for e in l.effects if e[0] == 'store' and e[1] == ('attr', ('self',), ff)]
+                    after = value(st[-1][2], evaluator(a_)) if st else state
+                    if label == 'first':
+                        rep.ob('joiner: the first event is written without leading silence and clears the flag', wr == [dp] and after == (not b0) and l.outcome != 'raise', W(wev), 'AudioEventsJoinerWorker.%s[first]' % wev.name,
+                               'writes %s, %s goes from %s to %s' % ([show(w)[:40] for w in wr], ff, state, after), sample=dict(event='first', writes=[show(w)[:40] for w in wr]))
+                    else:
+                        rep.ob('joiner: every later event is preceded by exactly one separator (silence, then the event)', wr == [('attr', ('self',), sf), dp] and after == (not b0) and l.outcome != 'raise', W(wev),
+                               'AudioEventsJoinerWorker.%s[later]' % wev.name, 'writes %s, %s goes from %s to %s' % ([show(w)[:40] for w in wr], ff, state, after), sample=dict(event='later', writes=[show(w)[:40] for w in wr]))
+            except Undecided as exc:
+                rep.unknown('AudioEventsJoinerWorker.%s: %s' % (wev.name, exc))
             isev = lambda t, msg: t[0] == 'call' and t[1] == ('attr', ('self',), wev.name) and t[2] == (('attr', ('sub', msg, ('c', 1)), 'data'),)
             pmj = cx.model.find_method(MOD, jc, '_process_message')
             mp = ('p', pmj[2].args.args[1].arg)
